@@ -239,3 +239,37 @@ def scale_pairs(ctx, n_quick=40):
     rest = [x for x in allp if x not in must]
     ctx.rng.shuffle(rest)
     return sorted(must | set(rest[:n_quick]))
+
+
+# ---- obligations of a contract owned by another check, carried along by every check that uses the contract -----------------------------
+def delegated_cases(owner, cases):
+    return [dict(c, id="oblig:%s|%s" % (owner, c["id"]), delegate=owner, orig_id=c["id"]) for c in cases]
+
+
+def rounding_kernel_obligations(ctx):
+    """i128_div_rounded against the declarative rounding relation, all 8 modes, symbolic divisor, explicit and thread-default mode (the
+    kernel cases of C05): every check that replaces the kernel by its contract discharges them itself, so that a change inside the
+    kernel is reported by the check of the property it breaks and not only by C05"""
+    import importlib
+    c05 = importlib.import_module("specs.C05")
+    return delegated_cases("C05", [c for c in c05.cases(ctx) if c.get("kind") == "kernel"])
+
+
+def run_delegated(ctx, case):
+    import importlib
+    mod = importlib.import_module("specs." + case["delegate"])
+    c = dict(case)
+    c["id"] = case["orig_id"]
+    r = mod.run_case(ctx, c)
+    r["case"] = case["id"]
+    for v in r.get("violations", []):
+        v.setdefault("info", {})
+        v["info"]["delegate"] = case["delegate"]
+        v["info"]["orig_case"] = case["orig_id"]
+    return r
+
+
+def replay_delegated(ctx, native, v):
+    import importlib
+    mod = importlib.import_module("specs." + v["info"]["delegate"])
+    return mod.replay(ctx, native, dict(v, case=v["info"]["orig_case"]))
